@@ -4,6 +4,13 @@ use serde_json::Value;
 
 pub mod c02;
 pub mod c03;
+pub mod c04;
+pub mod c05;
+pub mod c07;
+pub mod c13;
+pub mod c13b;
+pub mod c19;
+pub mod c20;
 
 pub struct Prop {
     pub id: &'static str,
@@ -15,5 +22,11 @@ pub fn registry() -> Vec<Prop> {
     vec![
         Prop { id: "C02", run: c02::run, replay: c02::replay },
         Prop { id: "C03", run: c03::run, replay: c03::replay },
+        Prop { id: "C04", run: c04::run, replay: c04::replay },
+        Prop { id: "C05", run: c05::run, replay: c05::replay },
+        Prop { id: "C07", run: c07::run, replay: c07::replay },
+        Prop { id: "C13", run: c13::run, replay: c13::replay },
+        Prop { id: "C19", run: c19::run, replay: c19::replay },
+        Prop { id: "C20", run: c20::run, replay: c20::replay },
     ]
 }
